@@ -10,6 +10,7 @@ from __future__ import annotations
 import numpy as np
 
 EPS = 1e-12
+MIN_KRAUS_WEIGHT = 1e-7  # Kraus branches lighter than this are never forced (complex64 noise floor)
 
 
 class UnscriptedDraw(Exception):
@@ -23,13 +24,12 @@ class BadDistribution(Exception):
 class ScriptedRandom:
     """Implements the RandomState surface Cirq uses (choice / random / randint)."""
 
-    def __init__(self, prefix=(), bulk_rng=None, u_values=None):
+    def __init__(self, prefix=(), bulk_rng=None):
         self.prefix = list(prefix)
         self.log = []        # (kind, weights tuple | n, decision, nonzero alternatives)
         self.bad = []        # malformed distributions requested
         self.bulk_rng = bulk_rng
         self.bulk = []       # arrays handed out for size>1 requests
-        self.u_values = list(u_values) if u_values is not None else None  # scripted random() outputs
 
     # -- helpers
     def _decide(self, kind, weights):
@@ -70,12 +70,18 @@ class ScriptedRandom:
             return out.reshape(size) if not isinstance(size, (int, np.integer)) else out
         if cnt == 0:
             return np.zeros(size, dtype=int)
-        # bulk request: hand out a scripted array over the support and remember it
+        # bulk request
         if self.bulk_rng is None:
+            if cnt <= 4:  # small batches: explore as independent sequential decisions
+                ds = [self._decide("choice", w) for _ in range(cnt)]
+                res = np.array(ds if vals is None else [vals[k] for k in ds])
+                return res.reshape(size) if not isinstance(size, (int, np.integer)) else res
             raise UnscriptedDraw("bulk choice(size=%r) without bulk_rng" % (size,))
+        # hand out a scripted array over the support and remember it (also in the log, to keep positions aligned)
         alts = [j for j, x in enumerate(w) if x > 1e-9]
         arr = np.array([alts[int(k)] for k in self.bulk_rng.integers(len(alts), size=cnt)])
         self.bulk.append((tuple(float(x) for x in w), arr.copy()))
+        self.log.append(("bulk", tuple(float(x) for x in w), None, []))
         res = arr if vals is None else np.array([vals[k] for k in arr])
         return res.reshape(size) if not isinstance(size, (int, np.integer)) else res
 
@@ -89,14 +95,17 @@ class ScriptedRandom:
         return low + d if size is None else np.array([low + d]).reshape(size)
 
     def random(self, size=None):
+        """A uniform draw.  Cirq's trajectory code consumes it as `p -= weight; if p < 0: break`, so the
+        returned object observes the weights subtracted from it and answers the comparisons according to
+        the scripted decision ("first index >= m with non-zero weight").  Any other use raises
+        UnscriptedDraw (-> inconclusive, never a false alarm)."""
         if size is not None:
             raise UnscriptedDraw("random with size")
-        if self.u_values is None:
-            raise UnscriptedDraw("random() without scripted u values")
-        i = sum(1 for e in self.log if e[0] == "random")
-        u = self.u_values[i] if i < len(self.u_values) else 0.5
-        self.log.append(("random", (), u, []))
-        return u
+        i = len(self.log)
+        m = self.prefix[i] if i < len(self.prefix) else 0
+        entry = ["random", [], None, m]
+        self.log.append(entry)
+        return ScriptedUniform(entry)
 
     random_sample = random
 
@@ -113,12 +122,65 @@ class ScriptedRandom:
     def path_probability(self):
         p = 1.0
         for kind, w, d, _ in self.log:
+            if kind == "bulk":
+                continue
             if kind != "random":
                 p *= w[d]
+            elif d is not None:
+                p *= w[d]
+            else:
+                p *= max(0.0, 1.0 - sum(w))  # no comparison answered True: the code's own fallback branch
         return p
 
     def decisions(self):
-        return [d for _, _, d, _ in self.log]
+        """prefix that replays this path: choice/randint -> index; random -> the threshold m that was used"""
+        return [(e[3] if e[0] == "random" else e[2]) for e in self.log]
+
+    def siblings(self, i, min_branch):
+        kind, w, d, extra = self.log[i]
+        if kind == "bulk":
+            return []
+        if kind == "random":
+            return [d + 1] if d is not None else []
+        return [j for j in extra if j != d and w[j] > min_branch]
+
+
+class ScriptedUniform:
+    """Stand-in for a float drawn from U[0,1): records `-= weight`, answers `< 0` / `>= 0`."""
+
+    def __init__(self, entry):
+        self._e = entry
+        self._last = False
+
+    def __sub__(self, w):
+        self._e[1].append(float(w))
+        return self
+
+    __isub__ = __sub__
+
+    def __lt__(self, other):
+        if other != 0:
+            raise UnscriptedDraw("uniform compared with %r" % (other,))
+        k = len(self._e[1]) - 1
+        if k < 0:
+            raise UnscriptedDraw("uniform compared before any weight was subtracted")
+        if self._e[2] is None and k >= self._e[3] and self._e[1][k] > MIN_KRAUS_WEIGHT:
+            self._e[2] = k
+            self._last = True
+        else:
+            self._last = False
+        return self._last
+
+    def __ge__(self, other):
+        if other != 0:
+            raise UnscriptedDraw("uniform compared with %r" % (other,))
+        return self._e[2] is None
+
+    def __float__(self):
+        raise UnscriptedDraw("uniform converted to float")
+
+    def __getattr__(self, name):
+        raise UnscriptedDraw("uniform used via %s" % name)
 
 
 class ExploreResult:
@@ -154,9 +216,10 @@ def explore(run, max_paths=4096, min_branch=1e-9):
         res.draws += len(rng.log)
         res.paths.append((rng.path_probability(), outcome, rng.decisions()))
         decs = rng.decisions()
-        for i in range(len(prefix), len(rng.log)):
-            kind, w, d, alts = rng.log[i]
-            for j in alts:
-                if j != d and w[j] > min_branch:
-                    stack.append(decs[:i] + [j])
+        first = len(prefix)
+        if prefix and len(rng.log) >= len(prefix) and rng.log[len(prefix) - 1][0] == "random":
+            first = len(prefix) - 1  # a uniform draw reveals its alternatives one at a time
+        for i in range(first, len(rng.log)):
+            for j in rng.siblings(i, min_branch):
+                stack.append(decs[:i] + [j])
     return res
